@@ -16,7 +16,9 @@ RULES = ("C04.",)
 
 FLAGLISTS_Q = ["\\Seen", "\\Deleted", "\\Answered \\Flagged", "$Fwd", "\\Seen $Fwd"]
 FLAGLISTS_T = FLAGLISTS_Q + ["\\Draft", "", "Seen", "unseen", "Recent", "replied", "Deleted"]
-INITS = {"plain": {}, "seen1": {1: "\\Seen"}, "mixed": {1: "\\Seen \\Flagged kw", 2: "\\Answered"}}
+INITS = {"plain": {}, "seen1": {1: "\\Seen"}, "mixed": {1: "\\Seen \\Flagged kw", 2: "\\Answered"},
+         # keywords that are pieces of system flag names, or differ from one only in case or the backslash
+         "oddkw": {1: "e nt Re kw", 2: "\\Flagged ece S"}}
 
 
 def cfg(init="plain"):
@@ -72,6 +74,28 @@ def alphabet(tier, wide=None):
     return ev
 
 
+def alphabet_keywords(tier):
+    """Keywords are opaque atoms: whatever their spelling they travel with the message through APPEND, COPY, MOVE and STORE."""
+    A, B = "A", "B"
+    ev = [
+        {"s": A, "op": "append", "m": "INBOX", "flags": "e"},
+        {"s": A, "op": "append", "m": "INBOX", "flags": "\\Seen Re nt"},
+        {"s": A, "op": "append", "m": "other", "flags": "c ent \\Answered"},
+        {"s": A, "op": "copy", "set": "1", "dst": "other"},
+        {"s": A, "op": "copy", "set": "1:*", "dst": "INBOX"},
+        {"s": A, "op": "move", "set": "1", "dst": "other"},
+        {"s": A, "op": "store", "set": "1", "mode": "+", "flags": "R"},
+        {"s": A, "op": "store", "set": "1:2", "mode": "-", "flags": "e"},
+        {"s": A, "op": "store", "set": "2", "mode": "=", "flags": "nt Flagged"},
+        {"s": A, "op": "fetch", "set": "1:*", "items": "(FLAGS)"},
+        {"s": B, "op": "noop"},
+        {"s": A, "op": "search", "key": "KEYWORD e"},
+        {"s": A, "op": "search", "key": "UNKEYWORD nt"},
+        {"s": B, "op": "select", "m": "other"},
+    ]
+    return ev
+
+
 def alphabet_toggle(tier):
     """Narrow and deep: one session toggles flags back and forth while the other stays quiet, polls or looks."""
     A, B = "A", "B"
@@ -104,6 +128,8 @@ def run(tier, seed, jobs):
         plans.append({"cfg_ref": ("vf.props.c04", "cfg", ["mixed"]), "alphabet": alphabet("quick"), "depth": 3, "label": "init=mixed narrow"})
     plans.append({"cfg_ref": ("vf.props.c04", "cfg", ["plain"]), "alphabet": alphabet_toggle(tier), "depth": 4 if tier == "quick" else 5,
                   "label": "init=plain, toggling alphabet (deep, narrow)"})
+    plans.append({"cfg_ref": ("vf.props.c04", "cfg", ["oddkw"]), "alphabet": alphabet_keywords(tier), "depth": 2 if tier == "quick" else 4,
+                  "label": "init=oddkw: keywords that are pieces of system flag names through APPEND / COPY / MOVE / STORE"})
     return run_h(PROP, RULES, plans, ("C04",), jobs, seed,
                  ["two read-write sessions on INBOX(2) (B may switch to EXAMINE); flag lists as in the alphabet "
                   "(system flags, $Fwd, keywords equal to MH sequence names in the thorough tier)",
